@@ -1,4 +1,5 @@
 import ChessVerif.Driver.Ops2
+import ChessVerif.Model.Deprecated
 /-
 Driver work for tables (C15, C16), bitboards (C20), symmetry (C17), hash separation (C09).
 -/
@@ -102,6 +103,15 @@ def tblEval (name : String) (a : List String) : Option (String × String) := do
     let cr := crOfNat cr
     let spec : List Char := (if cr.ks then [if c == .white then 'K' else 'k'] else []) ++ (if cr.qs then [if c == .white then 'Q' else 'q'] else [])
     pure (showText (castleString cr c), showText spec)
+  | "rsq2cr" =>
+    let s ← sqA 0
+    let spec : Nat := if s.fileN == 0 then 2 else if s.fileN == 7 then 1 else 0
+    pure (toString (rookSquareToCastleRights s).toIndex, toString spec)
+  | "toint" => let s ← sqA 0; pure (toString s.val, toString s.val)
+  | "sqdefault" => pure ("0", "0")
+  | "tosize" =>
+    let v ← bbA 0; let k ← natA 1
+    pure (toString (v.toSize k), toString (v.toNat / 2 ^ k))
   | "pcstr" =>
     let pi ← natA 0; let c ← colA 1
     let p ← allPieces[pi]?
@@ -115,8 +125,10 @@ def opTBL (args res : List String) : Findings := Id.run do
   match tblEval name args.tail with
   | none => return #[⟨'E', "parse", s!"TBL {name} {args.tail}"⟩]
   | some (model, spec) =>
-    fs := expectEq fs 'M' "tbl" impl model
-    fs := expectEq fs 'O' "tbl" impl spec
+    -- `to_size` is a conversion helper, not geometry: its own channel
+    let chan := if name == "tosize" then "aux" else "tbl"
+    fs := expectEq fs 'M' chan impl model
+    fs := expectEq fs 'O' chan impl spec
     return fs
 
 def opSlider (bishop bmi : Bool) (args res : List String) : Findings := Id.run do
@@ -286,13 +298,67 @@ def opSPECPERFT (args _res : List String) : Findings :=
       if n == expected then #[] else #[fO "specperft" s!"spec perft({depth}) = {n}, published {expected}"]
   | _, _, _ => #[⟨'E', "parse", "SPECPERFT args"⟩]
 
+/-! ### EDIT: the deprecated mutators.  Model correspondence on channel `edit`; when the result is a
+valid position, the C03/C08 oracles (check and pin sets, occupancy, raw hash = placement xor) on
+channels `ewf.*` -/
+
+def opEDIT (args res : List String) : Findings := Id.run do
+  let mut fs : Findings := #[]
+  let some b := args[0]?.bind board? | return #[⟨'E', "parse", "bad board"⟩]
+  let some cmd := args[1]? | return #[⟨'E', "parse", "EDIT cmd"⟩]
+  let impl := res.headD "?"
+  let cs := cmd.toList
+  let tailStr (n : Nat) : String := String.ofList (cs.drop n)
+  let model : Option (Option Board) :=
+    match cs with
+    | 'S' :: pc :: cc :: _ => do
+      let p ← allPieces[pc.toNat - '0'.toNat]?
+      let c ← color? (String.ofList [cc])
+      let s ← Driver.sq? (tailStr 3)
+      pure (b.setPiece T p c s)
+    | 'C' :: _ => do
+      let s ← Driver.sq? (tailStr 1)
+      pure (b.clearSquare T s)
+    | 'A' :: cc :: _ => do
+      let c ← color? (String.ofList [cc]); let x ← cr? (tailStr 2)
+      pure (some (b.addCastleRights c x))
+    | 'R' :: cc :: _ => do
+      let c ← color? (String.ofList [cc]); let x ← cr? (tailStr 2)
+      pure (some (b.removeCastleRights c x))
+    | 'a' :: _ => do let x ← cr? (tailStr 1); pure (some (b.addCastleRights b.stm x))
+    | 'r' :: _ => do let x ← cr? (tailStr 1); pure (some (b.removeCastleRights b.stm x))
+    | 't' :: _ => do let x ← cr? (tailStr 1); pure (some (b.addCastleRights b.stm.other x))
+    | 'u' :: _ => do let x ← cr? (tailStr 1); pure (some (b.removeCastleRights b.stm.other x))
+    | _ => none
+  match model with
+  | none => return #[⟨'E', "parse", s!"EDIT {cmd}"⟩]
+  | some m =>
+    fs := expectEq fs 'M' "edit" impl (match m with | some b' => showBoardDump b' | none => "NONE")
+    match board? impl with
+    | none => pure ()
+    | some b' =>
+      let p' := memo b'.abs
+      if Valid p' then fs := wfFindings fs "ewf." b' p'
+    return fs
+
 /-! ### dispatch -/
 
 def processLine (line : String) : Findings :=
   match line.splitOn " => " with
-  | [lhs, rhs] =>
+  | [lhs, rhs0] =>
     let l := (lhs.splitOn " ").filter (· != "")
-    let r := (rhs.splitOn " ").filter (· != "")
+    let r0 := (rhs0.splitOn " ").filter (· != "")
+    -- `alt=`: agreement of the thin wrappers / alternative entry points with the primary one, which
+    -- the model represents as the same function; anything but `OK` is a model≠impl finding of its own
+    let altFs : Findings := match r0.find? (·.startsWith "alt=") with
+      | some t => if t == "alt=OK" then #[] else 
+        let body := (t.drop 4).toString
+        let which := match body.splitOn ":" with | _ :: rest => ":".intercalate rest | [] => body
+        #[fO ("alt." ++ which) s!"an alternative entry point of the library disagrees with the primary one (which the oracle accepts on this input): {body}"]
+      | none => #[]
+    let r := r0.filter (fun t => !t.startsWith "alt=")
+    let rhs := " ".intercalate r
+    altFs ++
     match l with
     | [] => #[]
     | op :: args =>
@@ -312,6 +378,7 @@ def processLine (line : String) : Findings :=
       | "LEGAL" => opLEGAL args r
       | "MAKE" => opMAKE args r
       | "NULL" => opNULL args r
+      | "EDIT" => opEDIT args r
       | "FENP" => opFENP args r
       | "BLD" => opBLD args r
       | "BFEN" => opBFEN args r
